@@ -637,3 +637,113 @@ def line_col(text, offset):
     line = before.count("\n") + 1
     col = offset - (before.rfind("\n") + 1) + 1
     return line, col
+
+
+# ---------------------------------------------------------------------------
+# grammars spread over several files (`import`)
+# ---------------------------------------------------------------------------
+def rule_uses(schema):
+    """rule name -> names of the grammar rules its body mentions (base types excluded)."""
+    uses = {}
+    for r in schema["rules"]:
+        uses[r["name"]] = {p["type"] for p in r["parts"] if p.get("type") and p["type"] not in BASES}
+    for a in schema["abstracts"]:
+        uses[a["name"]] = {x["rule"] for x in a["alts"] if x["rule"] not in BASES}
+    for m in schema["matches"]:
+        uses[m["name"]] = {x for x in m.get("alts", []) if x not in BASES}
+    return uses
+
+
+def split_levels(schema, rng, nfiles):
+    """Assign every rule to one of `nfiles` grammar files g0..g{n-1} such that a rule only
+    mentions rules of its own file or of a file with a higher number (imports are acyclic) and
+    the model rule is in g0: mutually recursive rules share a file, a rule goes into the file of
+    its deepest user or one below it.  Returns {rule: file number}."""
+    uses = rule_uses(schema)
+    names = list(uses)
+    # strongly connected components (Tarjan), numbered in reverse topological order
+    index, low, comp, stack, on = {}, {}, {}, [], set()
+    comps = []
+
+    def visit(v):
+        index[v] = low[v] = len(index)
+        stack.append(v)
+        on.add(v)
+        for w in sorted(uses[v]):
+            if w not in index:
+                visit(w)
+                low[v] = min(low[v], low[w])
+            elif w in on:
+                low[v] = min(low[v], index[w])
+        if low[v] == index[v]:
+            c = []
+            while True:
+                w = stack.pop()
+                on.discard(w)
+                comp[w] = len(comps)
+                c.append(w)
+                if w == v:
+                    break
+            comps.append(c)
+
+    for v in names:
+        if v not in index:
+            visit(v)
+    users = {i: set() for i in range(len(comps))}
+    for x, ys in uses.items():
+        for y in ys:
+            if comp[x] != comp[y]:
+                users[comp[y]].add(comp[x])
+    # the model rule and every rule that (transitively) mentions it stay in g0
+    top, todo = {comp[root_rule(schema)]}, [comp[root_rule(schema)]]
+    while todo:
+        for u in users[todo.pop()]:
+            if u not in top:
+                top.add(u)
+                todo.append(u)
+    # the other components in an order in which users come before the rules they use (Tarjan numbers
+    # components in reverse topological order), cut into at most nfiles-1 consecutive groups
+    rest = [i for i in range(len(comps) - 1, -1, -1) if i not in top]
+    clev = {i: 0 for i in top}
+    if rest:
+        ncut = min(nfiles - 1, len(rest)) - 1
+        cuts = sorted(rng.sample(list(range(1, len(rest))), ncut)) if ncut > 0 else []
+        lev = 1
+        for pos, i in enumerate(rest):
+            if cuts and pos == cuts[0]:
+                cuts.pop(0)
+                lev += 1
+            clev[i] = lev
+    return {n: clev[comp[n]] for n in names}
+
+
+def grammar_files(schema, levels):
+    """-> [text of g0.tx, text of g1.tx, …]; a file imports exactly the files whose rules it
+    mentions itself, so rules may be reachable from g0 through a chain of imports only."""
+    nfiles = max(levels.values()) + 1
+    uses = rule_uses(schema)
+    whole = grammar_text(schema).split("\n")
+    per = [[] for _ in range(nfiles)]
+    for line in whole:
+        if line:
+            per[levels[line.split(":", 1)[0]]].append(line)
+    out = []
+    for i in range(nfiles):
+        imps = sorted({levels[y] for x, ys in uses.items() if levels[x] == i for y in ys} - {i})
+        out.append("".join(f"import g{j}\n" for j in imps) + "\n".join(per[i]) + "\n")
+    return out
+
+
+def loaded_rules(schema, levels):
+    """rules of the grammar files that g0 imports, directly or through other files."""
+    uses = rule_uses(schema)
+    imports = {}
+    for x, ys in uses.items():
+        imports.setdefault(levels[x], set()).update(levels[y] for y in ys)
+    seen, todo = {0}, [0]
+    while todo:
+        for j in imports.get(todo.pop(), ()):
+            if j not in seen:
+                seen.add(j)
+                todo.append(j)
+    return {x for x in uses if levels[x] in seen}
